@@ -88,7 +88,7 @@ def build_shim():
     out = os.path.join(BUILD, "fcshim.so")
     with _lock("shim"):
         if (not os.path.exists(out)) or os.path.getmtime(out) < os.path.getmtime(src):
-            p = subprocess.run(["gcc", "-O1", "-g", "-shared", "-fPIC", "-Wall", "-o", out + ".tmp", src, "-ldl",
+            p = subprocess.run(["gcc", "-O1", "-g", "-shared", "-fPIC", "-Wall", "-fno-delete-null-pointer-checks", "-o", out + ".tmp", src, "-ldl",
                                 "-lpthread"], stdout=subprocess.PIPE, stderr=subprocess.STDOUT)
             if p.returncode != 0:
                 sys.stderr.write(p.stdout.decode())
